@@ -101,7 +101,7 @@ class Sub:
     enum: Optional[Callable[[str], Iterable[Any]]] = None  # tier -> iterable of cases
     examples: Dict[str, int] = field(default_factory=lambda: {"quick": 200, "thorough": 2000})
     shards: Dict[str, int] = field(default_factory=lambda: {"quick": 8, "thorough": 16})
-    exhaustive: bool = False  # enum covers a finite space completely
+    exhaustive: Any = False  # True / tuple of tiers in which enum covers a finite space completely
     doc: str = ""
     serial: bool = False  # run in the parent process (body spawns its own workers)
 
@@ -453,7 +453,7 @@ def main(prop: str, tier: str, replay: Optional[str] = None, only: Optional[List
         violations.extend(r["violations"])
         errors.extend(r["errors"])
     for s in subs:
-        if s.enum is not None and s.exhaustive:
+        if s.enum is not None and (s.exhaustive is True or (not isinstance(s.exhaustive, bool) and tier in s.exhaustive)):
             exhaustive_subs.append(s.name)
 
     distinct_nt = sum(len(ps["nontrivial"]) for ps in per_sub.values())
